@@ -3,6 +3,7 @@ package h
 import (
 	"context"
 	"math/rand"
+	"sync"
 	"time"
 
 	"github.com/openfga/openfga/pkg/storage/memory"
@@ -29,7 +30,7 @@ func C09(run *Run) {
 	combos := []string{"server:ic:lic:shi", "server:ic:lic", "server:shi", "server:v2:ic:shi"}
 	nCases := run.Pick(40, 600)
 	rec := &Recorder{}
-	cancelled, positions := 0, 0
+	cancelled, positions, concurrent := 0, 0, 0
 	for c := 0; c < nCases; c++ {
 		ctx := context.Background()
 		cs, _ := GenCase(r, c, GenOpts{MinTuples: 10, MaxTuples: 20})
@@ -74,6 +75,58 @@ func C09(run *Run) {
 				}
 			}
 		}
+		concurrentPhase := func() {
+			// the same requests from six goroutines at once, half of which are cancelled on the way: what the
+			// others are told must not depend on it (shared iterators and cache fills are shared between them)
+			if combo != "server:v2:ic:shi" {
+				// during this phase the datastore behaves like a SQL backend: reads take a little time and an
+				// iterator read under a dead context fails
+				jr := rand.New(rand.NewSource(run.Seed + int64(c)))
+				var jmu sync.Mutex
+				ds.StrictCtx = true
+				ds.Jitter = func() time.Duration {
+					jmu.Lock()
+					defer jmu.Unlock()
+					return time.Duration(jr.Intn(120)) * time.Microsecond
+				}
+				var wg sync.WaitGroup
+				outs := make([][]*CheckEv, 6)
+				for g := 0; g < 6; g++ {
+					wg.Add(1)
+					order := r.Perm(len(reqs))
+					cancelAfter := time.Duration(50+r.Intn(600)) * time.Microsecond
+					go func(g int, order []int, cancelAfter time.Duration) {
+						defer wg.Done()
+						gctx := ctx
+						if g%2 == 1 {
+							c2, cancel := context.WithTimeout(ctx, cancelAfter)
+							defer cancel()
+							gctx = c2
+						}
+						for _, i := range order {
+							q := reqs[i]
+							ev := &CheckEv{Eng: combo, O: q.O, R: q.R, U: q.U, Ctx: q.Ctx}
+							env.RunCheck(gctx, ev, ts, mg)
+							if g%2 == 0 {
+								outs[g] = append(outs[g], ev)
+							}
+						}
+					}(g, order, cancelAfter)
+				}
+				wg.Wait()
+				for _, evs := range outs {
+					for _, ev := range evs {
+						rec.Add(ev)
+						run.Evals++
+						concurrent++
+					}
+				}
+				ds.StrictCtx, ds.Jitter = false, nil
+				time.Sleep(2 * time.Millisecond)
+				askAll()
+			}
+		}
+		concurrentPhase() // on cold caches: every goroutine reads through the shared iterators
 		// cancel the first request (and a ListObjects) at every read position, then ask everything
 		victim := reqs[0]
 		most := -1
@@ -128,6 +181,7 @@ func C09(run *Run) {
 		time.Sleep(5 * time.Millisecond)
 		askAll()
 		askAll()
+		concurrentPhase()
 		run.Nontrivial(hashOf([]any{cs.Model, cs.Tuples, reqs, combo}))
 		if c < 2 {
 			run.AddSample(map[string]any{"model": cs.Model.String(), "tuples": tupleStrings(cs.Tuples), "combo": combo, "victim": victim})
@@ -138,6 +192,7 @@ func C09(run *Run) {
 	run.Coverage["cases"] = nCases
 	run.Coverage["cancelled_requests"] = cancelled
 	run.Coverage["cancel_positions"] = positions
+	run.Coverage["answers_of_concurrent_uncancelled_requests"] = concurrent
 	run.Coverage["judged_by_tlc"] = sum.Judged
 	run.Coverage["verdict_classes"] = sum.Counts
 	run.Assumptions = []string{"reference = FGACore.Chk", "background cache fills are given 2-5 ms to finish (not awaited explicitly)", "the content of individual iterator-cache entries is not inspected; a partial entry shows up as a wrong answer of a later request"}
